@@ -1,5 +1,5 @@
 (* C02 — property theorems only.  Each is closed by [exact]/[apply] of a lemma proved in
-   C02_Proofs.v (refutation witnesses by vm_compute) and followed by Print Assumptions.
+   C02_Proofs.v and followed by Print Assumptions.
 
    "For every GET or HEAD request path, however it is spelled, the body returned by the
    file-serving handlers consists only of regular files inside the site root: the file the cleaned
@@ -8,7 +8,8 @@
    listed, and every redirect these handlers issue has a Location starting with exactly one '/'."
 
    The file system is an arbitrary finite tree [fs] (universally quantified), request paths,
-   Accept-Encoding values, hide lists, index-page lists and browse configurations are arbitrary. *)
+   Accept-Encoding values, hide lists, index-page lists, site path prefixes and browse
+   configurations are arbitrary. *)
 Require Import V.Lib V.GoPath V.GoPathProofs V.Gen_C02 V.Gen_C02b V.C02_Model V.C02_Proofs.
 Open Scope N_scope.
 Local Open Scope string_scope.
@@ -72,13 +73,20 @@ Example C02_static_sibling_nonvacuous :
   jail (bs "/x/..//dir/./c.txt" ++ bs ".zst") = bs "/dir/c.txt.zst".
 Proof. vm_compute. reflexivity. Qed.
 
-(* An identity-encoded body is a regular file that is not hidden. *)
-Theorem C02_static_plain_body_regular_not_hidden :
-  forall fs hide pages prefix m req ae n,
-  serve_file fs hide pages prefix m req ae = Serve n None ->
+(* Every body — identity-encoded or a precompressed sibling — is a regular file that is not
+   hidden: a directory named like a sibling (name ++ ext) is passed over. *)
+Theorem C02_static_serves_regular_file :
+  forall fs hide pages prefix m req ae n enc,
+  serve_file fs hide pages prefix m req ae = Serve n enc ->
   n_dir n = false /\ is_hidden fs hide n = false.
-Proof. exact static_plain_body. Qed.
-Print Assumptions C02_static_plain_body_regular_not_hidden.
+Proof. exact static_body_regular. Qed.
+Print Assumptions C02_static_serves_regular_file.
+
+(* the fixture has the directory /dir/e.gz beside the file /dir/e *)
+Example C02_static_serves_regular_file_nonvacuous :
+  serve_file fixture_fs gen_c02_hide gen_default_index_pages [SLASH] 0 (bs "/dir/e") (bs "gzip")
+  = Serve {| n_path := bs "/dir/e"; n_dir := false; n_id := 24 |} None.
+Proof. vm_compute. reflexivity. Qed.
 
 (* However the path of a hidden regular file is spelled, the answer carries no content at all
    (it is 404, or the trailing-slash redirect). *)
@@ -96,31 +104,21 @@ Example C02_static_hidden_file_nonvacuous :
      Serve {| n_path := bs "/a.txt.gz"; n_dir := false; n_id := 16 |} (Some (bs "gzip"))].
 Proof. vm_compute. reflexivity. Qed.
 
-(* never_hidden, full statement: FALSE of the faithful model.  The precompressed sibling is opened
-   after the IsHidden test and is not tested itself. *)
-Theorem C02_static_never_hidden_refuted :
-  exists fs hide pages req ae n enc,
-  serve_file fs hide pages [SLASH] 0 req ae = Serve n enc /\ is_hidden fs hide n = true.
-Proof. exact static_never_hidden_refuted. Qed.
-Print Assumptions C02_static_never_hidden_refuted.
-
-(* ... the strongest true form: if no hidden file can be reached under a name q ++ ext (ext the
-   extension of a static encoding), then nothing the static file server returns is hidden. *)
-Theorem C02_static_never_hidden_partial :
+(* Nothing the static file server returns is hidden — neither the file itself nor the
+   precompressed sibling served in its place (IsHidden is applied to the sibling too). *)
+Theorem C02_static_never_hidden :
   forall fs hide pages prefix m req ae n enc,
-  no_hidden_sibling fs hide ->
   serve_file fs hide pages prefix m req ae = Serve n enc -> is_hidden fs hide n = false.
-Proof. exact static_never_hidden_partial. Qed.
-Print Assumptions C02_static_never_hidden_partial.
+Proof. exact static_never_hidden. Qed.
+Print Assumptions C02_static_never_hidden.
 
-(* "regular files", full statement: FALSE of the faithful model — the sibling lookup does not
-   check that name ++ ext is a regular file; a directory of that name is "served". *)
-Theorem C02_static_serves_regular_file_refuted :
-  exists fs hide pages req ae n enc,
-  serve_file fs hide pages [SLASH] 0 req ae = Serve n enc /\ n_dir n = true.
-Proof. exact static_serves_regular_file_refuted. Qed.
-Print Assumptions C02_static_serves_regular_file_refuted.
-(* (partial form: C02_static_plain_body_regular_not_hidden above) *)
+(* a hidden sibling is passed over: the plain file is served (the fixture hides /hsib.txt.gz) *)
+Example C02_static_never_hidden_nonvacuous :
+  map (fun ae => match serve_file fixture_fs gen_c02_hide gen_default_index_pages [SLASH] 0 (bs "/hsib.txt") (bs ae) with
+                 | Serve n enc => (n_path n, enc) | _ => ([], None) end)
+      ["gzip"; "br, gzip"; ""]%string
+  = [(bs "/hsib.txt", None); (bs "/hsib.txt", None); (bs "/hsib.txt", None)].
+Proof. vm_compute. reflexivity. Qed.
 
 (* ---- the origin Casketfile ---------------------------------------------------------------- *)
 (* hideCasketfile: for an origin inside the root (absolute origin = absolute root ++ c, c cleaned)
@@ -131,13 +129,13 @@ Theorem C02_hide_casketfile_inside_root :
 Proof. exact hide_casketfile_inside. Qed.
 Print Assumptions C02_hide_casketfile_inside_root.
 
-(* ... hence, for EVERY spelling of EVERY request path, no identity-encoded body is the
-   Casketfile (compared as os.SameFile does: hard links included). *)
+(* ... hence, for EVERY spelling of EVERY request path, no body — identity-encoded or a
+   precompressed sibling — is the Casketfile (compared as os.SameFile does: hard links included). *)
 Theorem C02_casketfile_never_served :
   forall fs hide pages root name cf m req ae h,
   hide_casketfile root (root ++ jail name) = Some h -> In h hide ->
   fs_open fs (jail name) = Some cf ->
-  forall n, serve_file fs hide pages [SLASH] m req ae = Serve n None -> n_id n <> n_id cf.
+  forall n enc, serve_file fs hide pages [SLASH] m req ae = Serve n enc -> n_id n <> n_id cf.
 Proof. exact casketfile_never_served. Qed.
 Print Assumptions C02_casketfile_never_served.
 
@@ -145,15 +143,15 @@ Print Assumptions C02_casketfile_never_served.
 (* Everything a listing names is a child of the cleaned directory inside the tree and is not
    hidden. *)
 Theorem C02_listing_inside_root_never_hidden :
-  forall fs hide pages confs m req ae archive kids,
-  browse fs hide pages confs m req ae archive = Listing kids ->
+  forall fs hide pages prefix confs m req ae archive kids,
+  browse fs hide pages prefix confs m req ae archive = Listing kids ->
   forall k, In k kids ->
     In k fs /\ is_child (jail req) (n_path k) = true /\ is_hidden fs hide k = false.
 Proof. exact listing_sound. Qed.
 Print Assumptions C02_listing_inside_root_never_hidden.
 
 Example C02_listing_nonvacuous :
-  match browse fixture_fs gen_c02_hide gen_default_index_pages [{| b_scope := [SLASH]; b_types := [] |}]
+  match browse fixture_fs gen_c02_hide gen_default_index_pages [SLASH] [{| b_scope := [SLASH]; b_types := [] |}]
                0 (bs "//dir/../") [] [] with
   | Listing kids => existsb (fun k => beq (n_path k) (bs "/a.txt")) kids &&
                     negb (existsb (fun k => beq (n_path k) (bs "/Casketfile")) kids)
@@ -165,28 +163,44 @@ Proof. vm_compute. reflexivity. Qed.
 (* Every member of an archive is a node of the tree strictly below the cleaned directory
    (in particular lexically inside it, hence inside the root). *)
 Theorem C02_archive_inside_root :
-  forall fs hide pages confs m req ae archive ms,
-  browse fs hide pages confs m req ae archive = Archive ms ->
+  forall fs hide pages prefix confs m req ae archive ms,
+  browse fs hide pages prefix confs m req ae archive = Archive ms ->
   forall k, In k ms ->
     In k fs /\ is_desc (jail req) (n_path k) = true /\ has_prefix (n_path k) (jail req) = true.
 Proof. exact archive_inside_root. Qed.
 Print Assumptions C02_archive_inside_root.
 
-(* never hidden, for archives: FALSE of the faithful model — the walker does not consult the
-   hide list (the archive of the root contains the Casketfile). *)
-Theorem C02_archive_never_hidden_refuted :
-  exists fs hide pages confs req archive ms k,
-  browse fs hide pages confs 0 req [] archive = Archive ms /\ In k ms /\
-  n_dir k = false /\ is_hidden fs hide k = true.
-Proof. exact archive_never_hidden_refuted. Qed.
-Print Assumptions C02_archive_never_hidden_refuted.
+(* never hidden, for archives: no member is hidden (in particular the archive of the root does not
+   contain the origin Casketfile, a file hidden through `internal`, or a hard link to one), and no
+   member lies below a hidden directory inside the archived one — the walker applies the IsHidden
+   test of the listing to every entry and does not descend into a hidden directory. *)
+Theorem C02_archive_never_hidden :
+  forall fs hide pages prefix confs m req ae archive ms,
+  browse fs hide pages prefix confs m req ae archive = Archive ms ->
+  forall k, In k ms ->
+    is_hidden fs hide k = false /\
+    (forall a, In a fs -> n_dir a = true -> is_desc (jail req) (n_path a) = true ->
+               is_desc (n_path a) (n_path k) = true -> is_hidden fs hide a = false).
+Proof. exact archive_never_hidden. Qed.
+Print Assumptions C02_archive_never_hidden.
+
+Example C02_archive_never_hidden_nonvacuous :
+  match browse fixture_fs gen_c02_hide gen_default_index_pages [SLASH] [{| b_scope := [SLASH]; b_types := gen_archive_types |}]
+               0 [SLASH] [] (bs "zip") with
+  | Archive ms => map (fun p => existsb (fun k => beq (n_path k) (bs p)) ms)
+                      ["/a.txt"; "/dir/sub/d.txt"; "/Casketfile"; "/links/hard-casket"; "/secret.txt"; "/hsib.txt.gz";
+                       "/hdir"; "/hdir/in.txt"]%string
+  | _ => []
+  end = [true; true; false; false; false; false; false; false].
+Proof. vm_compute. reflexivity. Qed.
 
 (* ---- redirects ------------------------------------------------------------------------------ *)
-(* Every redirect of the static file server (site without path prefix, rooted request path) is a
-   307 whose Location starts with exactly one '/', and contains no backslash right after it. *)
+(* Every redirect of the static file server — on a site without a path prefix ([prefix] = "/") or
+   with one (the prefix is put back in front of the path the handlers saw) — is a 307 whose Location
+   starts with exactly one '/', and contains no backslash right after it. *)
 Theorem C02_static_redirect_same_origin :
-  forall fs hide pages m req ae code loc,
-  rooted req -> serve_file fs hide pages [SLASH] m req ae = Redirect code loc ->
+  forall fs hide pages prefix m req ae code loc,
+  rooted prefix -> rooted req -> serve_file fs hide pages prefix m req ae = Redirect code loc ->
   code = 307 /\ one_slash loc = true /\ same_origin loc = true.
 Proof. exact static_redirect. Qed.
 Print Assumptions C02_static_redirect_same_origin.
@@ -197,27 +211,29 @@ Example C02_static_redirect_nonvacuous :
   = [Redirect 307 (bs "/"); Redirect 307 (bs "/a.txt"); Redirect 307 (bs "/dir/")].
 Proof. vm_compute. reflexivity. Qed.
 
-(* browse, full statement: FALSE of the faithful model — its add-a-slash redirect has no '//'
-   trimming loop: //evil.example/.. is redirected to the scheme-relative //evil.example/../ *)
-Theorem C02_browse_redirect_same_origin_refuted :
-  exists fs hide pages confs req code loc,
-  rooted req /\ browse fs hide pages confs 0 req [] [] = Redirect code loc /\ same_origin loc = false.
-Proof. exact browse_redirect_same_origin_refuted. Qed.
-Print Assumptions C02_browse_redirect_same_origin_refuted.
+(* the site 127.0.0.1/pre: GET /pre//evil.example/.. reaches the handlers as //evil.example/.. *)
+Example C02_static_redirect_prefix_site_nonvacuous :
+  map (fun p => serve_file fixture_fs gen_c02_hide gen_default_index_pages (bs "/pre") 0 (bs p) [])
+      ["//evil.example/.."; "//dir"; "//evil.example/../a.txt/"; "/dir/sub"]%string
+  = [Redirect 307 (bs "/pre/"); Redirect 307 (bs "/pre/dir/"); Redirect 307 (bs "/pre/a.txt"); Redirect 307 (bs "/pre/dir/sub/")].
+Proof. vm_compute. reflexivity. Qed.
 
-(* ... the strongest true form: unless the request path itself starts with "//", every redirect
-   browse issues (its own or the static file server's behind it) stays on the origin. *)
-Theorem C02_browse_redirect_same_origin_partial :
-  forall fs hide pages confs m req ae archive code loc,
-  rooted req -> has_prefix req [SLASH; SLASH] = false ->
-  browse fs hide pages confs m req ae archive = Redirect code loc ->
+(* browse: every redirect it issues (its own add-a-slash redirect, which trims a leading "//" like
+   the static file server's, or the static file server's behind it) stays on the origin, however
+   the request path is spelled. *)
+Theorem C02_browse_redirect_same_origin :
+  forall fs hide pages prefix confs m req ae archive code loc,
+  rooted prefix -> rooted req ->
+  browse fs hide pages prefix confs m req ae archive = Redirect code loc ->
   one_slash loc = true /\ same_origin loc = true.
 Proof. exact browse_redirect. Qed.
-Print Assumptions C02_browse_redirect_same_origin_partial.
+Print Assumptions C02_browse_redirect_same_origin.
 
-Example C02_browse_redirect_partial_nonvacuous :
-  browse fixture_fs gen_c02_hide gen_default_index_pages [{| b_scope := [SLASH]; b_types := [] |}]
-         0 (bs "/x/..//dir/sub") [] [] = Redirect 301 (bs "/dir/sub/").
+Example C02_browse_redirect_nonvacuous :
+  map (fun p => browse fixture_fs gen_c02_hide gen_default_index_pages [SLASH] [{| b_scope := [SLASH]; b_types := [] |}]
+                       0 (bs p) [] [])
+      ["/x/..//dir/sub"; "//evil.example/.."; "///evil.example/../dir"; "/\evil.example/../dir"]%string
+  = [Redirect 301 (bs "/dir/sub/"); Redirect 301 (bs "/"); Redirect 301 (bs "/dir/"); Redirect 301 (bs "/dir/")].
 Proof. vm_compute. reflexivity. Qed.
 
 (* ---- the whole site ---------------------------------------------------------------------- *)
@@ -230,24 +246,23 @@ Theorem C02_site_sound :
   | Serve n enc =>
       is_get_head (q_meth r) = true /\ In n (s_fs s) /\
       served_from (s_pages s) (q_path r) (q_ae r) enc (n_path n) /\
-      (enc = None -> n_dir n = false /\ is_hidden (s_fs s) (s_hide s) n = false) /\
-      (no_hidden_sibling (s_fs s) (s_hide s) -> is_hidden (s_fs s) (s_hide s) n = false)
+      n_dir n = false /\ is_hidden (s_fs s) (s_hide s) n = false
   | Listing kids =>
       forall k, In k kids -> In k (s_fs s) /\ is_child (jail (q_path r)) (n_path k) = true /\
                              is_hidden (s_fs s) (s_hide s) k = false
   | Archive ms =>
       forall k, In k ms -> In k (s_fs s) /\ is_desc (jail (q_path r)) (n_path k) = true /\
-                           has_prefix (n_path k) (jail (q_path r)) = true
+                           has_prefix (n_path k) (jail (q_path r)) = true /\
+                           is_hidden (s_fs s) (s_hide s) k = false
   | Redirect code loc =>
-      rooted (q_path r) -> has_prefix (q_path r) [SLASH; SLASH] = false ->
-      one_slash loc = true /\ same_origin loc = true
+      rooted (s_prefix s) -> rooted (q_path r) -> one_slash loc = true /\ same_origin loc = true
   | Status _ => True
   end.
 Proof. exact site_sound. Qed.
 Print Assumptions C02_site_sound.
 
 Example C02_site_sound_nonvacuous :
-  map (fun p => match handle (mksite (bs "/srv/www") (bs "/srv/www/Casketfile") [SLASH] gen_archive_types) (mkreq 0 (bs p) (bs "br") []) with
+  map (fun p => match handle (mksite (bs "/srv/www") (bs "/srv/www/Casketfile") [SLASH] [SLASH] gen_archive_types) (mkreq 0 (bs p) (bs "br") []) with
                 | Serve n _ => n_id n | Listing k => 1000 + N.of_nat (length k) | Redirect c _ => c
                 | Status c => c | Archive _ => 2000 end)
       ["/a.txt"; "/dir/"; "/dir"; "/secret.txt"; "/Casketfile/."]
